@@ -76,3 +76,34 @@ def theta0_of_p(hexbits):
     if p < 1:
         return max(theta0_floor(), int(float(2**63) * p))
     return 2**63 - 1
+
+
+def edge_matrix(rng=None, extra=40):
+    """every boundary literal of every update overload (deterministic), plus `extra` random inputs when an rng is given.
+    The sign/zero-extension, -0.0 / NaN canonicalisation and empty-input rules are only visible on these."""
+    m = []
+    for v in [0, 1, 2**31 - 1, 2**31, 2**32 - 1, 2**32, 2**63 - 1, 2**63, 2**64 - 1, 255, 256, 65535, 65536]:
+        m.append(("u64", str(v)))
+    for v in [0, 1, -1, -2**63, 2**63 - 1, -2**31, 2**31 - 1, 2**31, -2**31 - 1, 2**32, -128, 127, 255]:
+        m.append(("i64", str(v)))
+    for v in [0, 1, 2**31 - 1, 2**31, 2**31 + 1, 3000000000, 2**32 - 1, 255, 65535, 65536]:
+        m.append(("u32", str(v)))
+    for v in [0, 1, -1, -2**31, 2**31 - 1, -128, 127, 255, -32768, 65535]:
+        m.append(("i32", str(v)))
+    for v in [0, 1, 2**15 - 1, 2**15, 2**16 - 1, 255, 256]:
+        m.append(("u16", str(v)))
+    for v in [0, 1, -1, -2**15, 2**15 - 1, -128, 127, 255]:
+        m.append(("i16", str(v)))
+    for v in [0, 1, 127, 128, 255]:
+        m.append(("u8", str(v)))
+    for v in [0, 1, -1, -128, 127]:
+        m.append(("i8", str(v)))
+    for h in F64_SPECIAL:
+        m.append(("f64", h))
+    for h in F32_SPECIAL:
+        m.append(("f32", h))
+    m += [("str", "-"), ("str", "61"), ("str", "ff"), ("str", "0100000000000000"), ("str", "ffffffffffffffff"), ("str", "61" * 16), ("str", "62" * 17)]
+    m += [("raw", "-"), ("raw", "00"), ("raw", "0100000000000000"), ("raw", "ffffffff"), ("raw", "ffffffffffffffff"), ("raw", "07" * 16), ("raw", "09" * 33)]
+    if rng is not None:
+        m += [rand_input(rng, rng.choice([10, 1000, 10**9])) for _ in range(extra)]
+    return m
